@@ -1,6 +1,6 @@
 (* Extract/ExC01.v -- extraction of the C01 model (distillation with oracles, reference semantics, reference tree). *)
 From Coq Require Import Extraction ExtrOcamlBasic ExtrOcamlString.
-From AT Require Import Num Vec Aff Farkas FM Equiv PTree Cells Abs Reduce Paths PolyGen Cache Elim CPrune WfC OpsWf Schema Arch Net NetReplay.
+From AT Require Import Num Vec Aff Farkas FM Equiv PTree Cells Abs Reduce Paths PolyGen Cache Elim CPrune WfC OpsWf Schema Arch Net NetReplay EquivThin.
 Extraction Blacklist List String Int.
 Extraction "model_c01.ml"
   qc_of_float qz qfrac qleb qltb qeqb Qcplus Qcmult Qcopp Qcminus Qcdiv
@@ -14,4 +14,5 @@ Extraction "model_c01.ml"
   dabs preorder node_rows in_rowsb contains_tol tighten relax empty_cert thin_cert cache_check constrs_of
   cabs elim erase cev k0 compose_prune cprune ctree_eqb_shape cwftb cof
   sc_sixth_f64 layer_out_dim layers_out_dim layers_ok layer_wfb layer_eval net_eval distill_ref distill_ref_from layer_tree
-  distill_from distill id_tree oracle_by_query.
+  distill_from distill id_tree oracle_by_query
+  tree_equiv_skip thin_skip.
